@@ -558,7 +558,11 @@ class PWLCalibration(keras.layers.Layer):
         value=self.input_keypoints,
         dtype=self.dtype,
         shape=[len(self.input_keypoints), 1])
-    if self.impute_missing and self.missing_input_value is None:
+    if self.input_keypoints_type == "learned_interior":
+      # Learned keypoints move away from the initial 'input_keypoints': the
+      # function has to be judged at its current nodes.
+      outputs = self.keypoints_outputs()
+    elif self.impute_missing and self.missing_input_value is None:
       outputs = self.call([test_inputs, tf.zeros_like(test_inputs)])
     else:
       outputs = self.call(test_inputs)
